@@ -375,6 +375,9 @@ class Run:
         d = VERIF / 'replays'
         d.mkdir(exist_ok=True)
         n = len(self.violations)
+        if n >= 12:                 # the first dozen failing inputs are reported with a replay file each; the rest are only counted
+            self.violations.append(('', note))
+            return
         path = d / f'{self.pid}_{self.tier}_{self.seed}_{n}.json'
         replay = dict(property=self.pid, note=note, **replay)
         path.write_text(json.dumps(replay, indent=1, default=str))
